@@ -498,7 +498,7 @@ def c18(tier, replay):
     rep = Report("C18", tier)
     rep.assumptions = ASSUME_CPP + [
         "scalar payloads are replaced by values the Print specification can render (non-negative < 2^31, -1, small "
-        "negative i8/i16) and bytes of every escape class except the single quote; schemas with floats are not used",
+        "negative i8/i16) and bytes of every escape class incl. both quote characters; schemas with floats are not used",
         "the C++ object printed is the one decoded from the specification's little-endian image"]
     vs = wire.generate(tier, light=True)
     for st in vs.stats:
